@@ -57,6 +57,11 @@ def run(F, R):
     _lf = _c3.last_used_field(F, M, _by['can_pop'][0]) if 'can_pop' in _by else None
     if _lf and 'pop_used' in _by:
         _c3.e1_e2_pop(F, RuleProxy(R, {'E1': 'K9', 'E2': 'K9'}), M, _by['pop_used'][0], _lf)
+    # K13: completions keep being seen after the 16-bit ring indices wrap (65536 requests on one queue): wrap-safe counters
+    # and the folded completion test (C03.E5 / E9)
+    _c3.counters_rule(F, R, 'K13')
+    if _lf and 'can_pop' in _by:
+        _c3.e9_can_pop(F, R, M, _by['can_pop'][0], _lf, rule='K13')
     # K10: with several requests outstanding a further request is refused when the descriptors it needs are not free -
     # otherwise it overwrites the header / data / status descriptors of a request in flight (capacity table, C03.E3)
     if _lf and 'add' in _by:
